@@ -8,6 +8,8 @@ Line-protocol front end for C15.
         | e<k>,<k>,…          or e-   (frame_errors dispatched)
         | q<k>:<n>                    (a public request() for kind k: n attempts, never answered)
   c15judge <event>* | <observed>*   -> pass | fail   (C15.spec; observed = queued kinds per event: <k>,<k>,… or -)
+  c15sys <addr>@<event> …           -> several devices on one queue: per event the frames `<kind>><recipient>,…` or `-`, `;`-joined
+  c15sysjudge <addr>@<event>* | <observed frames>*   -> pass | fail   (C15.specSys)
 -/
 namespace PlumVerif.C15
 
@@ -39,6 +41,22 @@ def showRes (r : Res) : String :=
   (if r.queued.isEmpty then "-" else String.intercalate "," (r.queued.map toString)) ++ "/" ++
     (if r.raised then "1" else "0")
 
+def parseAddrEv (s : String) : Option (Nat × Ev2) :=
+  match s.splitOn "@" with
+  | [a, e] => do pure (← a.toNat?, ← parseEv2 e)
+  | _ => none
+
+def parseFrame (s : String) : Option Frame :=
+  match s.splitOn ">" with
+  | [k, r] => do pure ⟨← k.toNat?, ← r.toNat?⟩
+  | _ => none
+
+def parseFrames (s : String) : Option (List Frame) :=
+  if s = "-" then some [] else (s.splitOn ",").mapM parseFrame
+
+def showFrames (fs : List Frame) : String :=
+  if fs.isEmpty then "-" else String.intercalate "," (fs.map fun f => s!"{f.kind}>{f.recipient}")
+
 def versionOps : List String → Option String
   | "c15" :: evs => do
     let es ← evs.mapM parseEv2
@@ -48,6 +66,14 @@ def versionOps : List String → Option String
     let es ← (rest.takeWhile (· ≠ "|")).mapM parseEv2
     let obs ← ((rest.dropWhile (· ≠ "|")).drop 1).mapM parseNats
     if rest.contains "|" then pure (if spec2 es obs then "pass" else "fail") else none
+  | "c15sys" :: evs => do
+    let es ← evs.mapM parseAddrEv
+    let rs := sysRun (fun _ => init) es
+    pure (if rs.isEmpty then "." else String.intercalate ";" (rs.map showFrames))
+  | "c15sysjudge" :: rest => do
+    let es ← (rest.takeWhile (· ≠ "|")).mapM parseAddrEv
+    let obs ← ((rest.dropWhile (· ≠ "|")).drop 1).mapM parseFrames
+    if rest.contains "|" then pure (if specSys es obs then "pass" else "fail") else none
   | _ => none
 
 end PlumVerif.C15
